@@ -10,6 +10,7 @@ import (
 	"sort"
 	"strconv"
 	"strings"
+	"time"
 )
 
 type ruleFn func(r *Report, s *Sem)
@@ -21,6 +22,8 @@ func register(id string, residue string, f ruleFn) {
 	registry[id] = f
 	residues[id] = residue
 }
+
+var processStart = time.Now()
 
 func main() {
 	var (
@@ -102,17 +105,18 @@ func main() {
 	}
 	exit := 0
 	for _, id := range props {
-		var extras []extraResult
+		rep := analyse(p, id, *tier, *verbose)
 		extrasOK := true
-		if *tier == "thorough" && *root == "/repo" {
-			extras, extrasOK = thoroughExtras(id, *knownF, *noSelf)
+		if *tier == "thorough" && *root == "/repo" && !rep.failing(known) {
+			// the self-test corpus and the extra build configurations are only meaningful on a tree the rules accept
+			rep.Extras, extrasOK = thoroughExtras(id, *knownF, *noSelf)
 		}
-		code := runProperty(p, id, *tier, *evDir, known, seed, *verbose, extras)
+		code := rep.Finish(*evDir, known, checkerCmd(id, *tier), seed, true)
 		if code > exit {
 			exit = code
 		}
 		if !extrasOK {
-			for _, e := range extras {
+			for _, e := range rep.Extras {
 				if !e.OK {
 					fmt.Fprintf(os.Stderr, "limecheck: self-test/%s %s: expected %s, got %s: %s\n", e.Kind, e.Name, e.Expect, e.Got, e.Out)
 				}
@@ -125,19 +129,15 @@ func main() {
 	os.Exit(exit)
 }
 
-func runProperty(p *Prog, id, tier, evDir string, known *knownFile, seed int, verbose bool, extras []extraResult) (code int) {
-	rep := newReport(id, tier, p)
-	rep.Extras = extras
+// analyse runs the rules of one property and returns the unfinished report.
+func analyse(p *Prog, id, tier string, verbose bool) (rep *Report) {
+	rep = newReport(id, tier, p)
 	rep.Residue = residues[id]
 	defer func() {
 		if e := recover(); e != nil {
 			// a crashing rule must fail, never pass
 			rep.Rule("R0", "the checker itself must not crash", 0)
 			rep.Undecided("R0", "checker-panic", "-", fmt.Sprint(e))
-			code = rep.Finish(evDir, known, checkerCmd(id, tier), seed, true)
-			if code == 0 {
-				code = 1
-			}
 		}
 	}()
 	s := newSem(p)
@@ -146,7 +146,7 @@ func runProperty(p *Prog, id, tier, evDir string, known *knownFile, seed int, ve
 		for _, u := range s.unresolved {
 			rep.Undecided("R0", "anchor-unresolved:"+u, "-", "anchor cannot be resolved in the type-checked program; a regression could hide behind it")
 		}
-		return rep.Finish(evDir, known, checkerCmd(id, tier), seed, true)
+		return rep
 	}
 	registry[id](rep, s)
 	if verbose {
@@ -157,7 +157,7 @@ func runProperty(p *Prog, id, tier, evDir string, known *knownFile, seed int, ve
 			fmt.Printf("  NOTE %s\n", n)
 		}
 	}
-	return rep.Finish(evDir, known, checkerCmd(id, tier), seed, true)
+	return rep
 }
 
 func checkerCmd(id, tier string) string {
